@@ -27,7 +27,7 @@ BUILT["C14"] = ("E1", "exploration", "deterministic simulation: real dialer and 
 BUILT["C15"] = ("E1", "fault_enumeration", "deterministic simulation with hostile-peer fault enumeration: scripted raw peer bytes x chunking schedules against the real listener/dialer; reference encoder/parser as oracle",
   "Enumerated hostile cases (over-long varints, 16383/16384 frames, 1000 vs 1001 protocols, names without '/', missing newline, wrong header, bit flips, truncation at every offset) each under drawn chunkings and schedules; honest runs compare the full wire image with a reference encoding; panics are violations",
   "reference encoder/parser written from the spec; case list is finite, chunkings sampled", "5/C15")
-BUILT["C24"] = ("E1", "exploration", "deterministic simulation: real mplex / yamux pairs, 2 driver units + up to 16 substream units under a seeded scheduler, pipe chunking/readiness faults, connection reset; tagged-byte stream-equality oracle",
+BUILT["C24"] = ("E1", "exploration", "deterministic simulation: real mplex / yamux pairs, 2 driver units + up to 16 substream units under a seeded scheduler, pipe chunking/readiness faults, connection reset, bulk transfers past the muxers' windows; tagged-byte stream-equality oracle",
   "Seeded search over substream plans x muxer knobs x pipe configurations x unit interleavings; oracle per substream and direction: read bytes are a prefix of written bytes (equal after a clean close), EOF only after close/drop, no cross-talk (every byte encodes stream tag, direction, offset)",
   "yamux runs use a 4 MiB pipe (the external yamux 0.14 crate deadlocks when both send buffers are full while a Pong is pending; not /repo code); EOF after a *drop* is not demanded (mplex sends the Reset at the next opportunity only)", "5/C24")
 BUILT["C25"] = ("E1", "fault_enumeration", "deterministic simulation: real mplex endpoint against a scripted raw peer with a reference codec; every split offset enumerated inside a run, hostile frames enumerated",
